@@ -117,12 +117,34 @@ func (fr *Frame) havocVars(vars []string) {
 
 // havocCallee havocs the static mod set of a contract-less (or modifies-less) callee; variables the
 // callee writes only at freshly allocated references keep their values at older references.
-func (fr *Frame) havocCallee(callee *ssa.Function) {
+func (fr *Frame) havocCallee(callee *ssa.Function, argVals ...ssa.Value) {
 	ex := fr.ex
-	mi := ex.mods.info(callee)
-	if mi.all {
+	src := ex.mods.info(callee)
+	if src.all {
 		ex.havocAll(fr.cur)
 		return
+	}
+	// attribute parameter writes: fresh argument => alloc-only, otherwise a general write
+	mi := newModInfo()
+	mi.allocates = src.allocates
+	for v := range src.vars {
+		mi.vars[v] = true
+	}
+	for v := range src.allocVars {
+		mi.allocVars[v] = true
+	}
+	for idx, vars := range src.paramWrites {
+		fresh := false
+		if idx < len(argVals) {
+			fresh = isFreshValue(argVals[idx], 0)
+		}
+		for v := range vars {
+			if fresh {
+				mi.allocVars[v] = true
+			} else {
+				mi.vars[v] = true
+			}
+		}
 	}
 	oldAlloc := ex.get(fr.cur, "alloc")
 	if mi.allocates {
@@ -177,7 +199,7 @@ func (fr *Frame) callStatic(ins ssa.Instruction, callee *ssa.Function, args []*V
 		return &Val{S: resSort, Tup: res}
 	}
 	// no contract, not inlinable: havoc static mod set
-	fr.havocCallee(callee)
+	fr.havocCallee(callee, callArgs(ins)...)
 	ex.vc.note("call to " + key + " without contract (has loops): results unconstrained, effects = static mod set")
 	return fr.havocVal("call_"+callee.Name(), resSort)
 }
@@ -221,7 +243,7 @@ func (fr *Frame) applyContract(ins ssa.Instruction, c *Contract, key string, cal
 	if c.HasMod {
 		fr.havocByModifies(c, env, callee)
 	} else if callee != nil {
-		fr.havocCallee(callee)
+		fr.havocCallee(callee, callArgs(ins)...)
 	} else {
 		vc.note("interface contract " + key + " without modifies clause: assumed to modify nothing tracked")
 	}
@@ -481,6 +503,13 @@ func (ex *Exec) stringMethod(t types.Type) *ssa.Function {
 		if fn != nil && fn.Pkg == ex.pkg {
 			return fn
 		}
+	}
+	return nil
+}
+
+func callArgs(ins ssa.Instruction) []ssa.Value {
+	if ci, ok := ins.(ssa.CallInstruction); ok {
+		return ci.Common().Args
 	}
 	return nil
 }
